@@ -177,3 +177,8 @@ def expected(model):
     if model["atcharges"] is not None:
         exp[("atcharges", "mulliken")] = Approx(model["atcharges"], atol=0.5e-6)
     return exp
+
+
+# Relative tolerance of the wavefunction comparison: coordinates may be given in angstrom (CODATA drift of the conversion factor,
+# 7e-10 relative, acts on tight functions through 2 alpha r) and numbers are printed with 12-13 significant digits.
+WFN_REL_TOL = 2e-5
